@@ -11,8 +11,9 @@ FUNCTIONS = [MP + ":escape_file_id", MP + ":unescape_file_id", MP + ":BzrGitMapp
              RF + ":branch_name_to_ref", RF + ":ref_to_branch_name", RF + ":tag_name_to_ref", RF + ":ref_to_tag_name",
              RF + ":is_tag", RF + ":is_peeled"]
 STUBS = []
-ASSUMPTIONS = ["paths / names for generate_file_id, parse_file_id and the ref-name functions are ASCII (the engine's "
-               "UTF-8 codec model covers code points < 0x80); file ids for escape/unescape are arbitrary bytes"]
+ASSUMPTIONS = ["paths for generate_file_id / parse_file_id are arbitrary bytes (the engine models the UTF-8 codec including "
+               "surrogateescape); branch / tag names are over an ASCII alphabet; file ids for escape/unescape are "
+               "arbitrary bytes"]
 OUTSIDE = ["git_url_to_bzr_url / bzr_url_to_git_url (Rust + dulwich URL parsing)", "GitBranch.set_parent (config I/O)",
            "non-ASCII names and paths", "ids longer than the bounds"]
 
@@ -54,13 +55,16 @@ def ob_unescape(cx):
 def ob_file_id(cx):
     M = cx.mod(MP)
     m = M.BzrGitMappingv1()
-    p = cx.bytes("path", cx.choose("n", 0, cx.p("n")), list(range(1, 128)))
+    p = cx.bytes("path", cx.choose("n", 0, cx.p("n")))          # arbitrary bytes, including invalid UTF-8
     fid = m.generate_file_id(p)
     back = m.parse_file_id(fid)
-    cx.require(back == p.decode("ascii"), "parse_file_id(generate_file_id(path)) != path")
-    ps = p.decode("ascii")
+    ps = p.decode("utf-8", "surrogateescape")
+    cx.require(back == ps, "parse_file_id(generate_file_id(path)) is not the (surrogate-escaped) path")
+    cx.require(M.encode_git_path(back) == p, "path bytes not recovered from the parsed file id")
     cx.require(m.generate_file_id(ps) == fid, "generate_file_id differs between str and bytes path")
     cx.observe("fid", fid)
+    if len(p) and any(cx.truth(c >= 0x80) for c in p):
+        cx.cover("non_ascii")
     if len(p):
         cx.cover("nonempty")
     else:
@@ -131,8 +135,8 @@ def obligations(tier):
         Ob("escape_roundtrip", ob_escape, [MP], p, to, 1, ["full"], bounds="file ids <= %(n)d arbitrary bytes" % p),
         Ob("unescape_roundtrip", ob_unescape, [MP], dict(n=p["n"] + 1), to, 1, ["rejected", "wellformed"],
            bounds="escaped ids <= %d bytes over '_', 's', 'c', ' ', 'a', 'b', 0x0c" % (p["n"] + 1)),
-        Ob("file_id_roundtrip", ob_file_id, [MP], dict(n=p["n"] - 1), to, 1, ["nonempty", "root"],
-           bounds="paths <= %d ASCII bytes (1..127)" % (p["n"] - 1)),
+        Ob("file_id_roundtrip", ob_file_id, [MP], dict(n=3 if q else 4), to, 3 if q else 1, ["nonempty", "root", "non_ascii"],
+           bounds="paths <= %d arbitrary bytes (0..255, valid and invalid UTF-8; surrogateescape codec modelled)" % (3 if q else 4)),
         Ob("revision_id", ob_revid, [MP], p, to, 1, ["zero", "nonzero"], bounds="40 symbolic lowercase hex digits"),
         Ob("ref_names", ob_refs, [RF], p, to, 1, ["head", "named"], known=kn,
            bounds="names <= %(nname)d chars over %(alpha)r" % p),
